@@ -16,7 +16,7 @@ class C08(Prop):
             "plus a stride) and compared with the export of the full capture and with the ground truth; one evaluation = "
             "one exported prefix; non-trivial = a prefix whose export differs from the full export; distinct = (scenario, k)")
     reach = ["cut_inside_handshake", "cut_inside_spanning_record", "cut_after_key_change", "cut_between_flights",
-             "quic_world", "multi_conn"]
+             "quic_world", "multi_conn", "four_tuple_reuse"]
 
     def plan(self, tier):
         p = super().plan(tier)
@@ -28,11 +28,25 @@ class C08(Prop):
     def gen(self, seed, idx, tier):
         R = Rng(seed, "C08")
         cfg = {"records_max": 6, "len_max": 3000, "isn_wrap": False, "seg_pct": 80,
-               "net": {"delay": 25, "lost_before": 10, "dup": 30, "dup_rto": 40, "dup_late": 40, "_D": 3}, "net_pct": 60,
+               "net": {"delay": 25, "lost_before": 40, "dup": 30, "dup_rto": 40, "dup_late": 40, "_D": 3}, "net_pct": 60,
                "quic_pct": 35, "quic": {"small": True, "net": {"delay": 80, "dup": 60, "lost": 30, "_D": 3}}}
         spec = gen.gen_mixed_world(R.fork("world"), cfg, nconn=R.weighted([(1, 50), (2, 35), (3, 15)]))
         spec["prop"] = "C08"
         spec["tier"] = tier
+        tls = [c for c in spec["conns"] if c["proto"] == "tls"]
+        if tls and R.chance(15):
+            # a later connection re-uses the 4-tuple of an earlier one (client port reuse); whatever TLExport makes of the
+            # second connection, cutting the capture must still only remove a suffix
+            import copy
+            a = tls[0]
+            used = set()
+            b = gen.gen_tls_conn(R.fork("reuse"), max(c["id"] for c in spec["conns"]) + 1,
+                                 {"records_max": 4, "len_max": 800, "isn_wrap": False}, used)
+            b["c"], b["s"], b["v6"] = copy.deepcopy(a["c"]), copy.deepcopy(a["s"]), a["v6"]
+            b["tcp"]["ctl"] = True
+            spec["conns"].append(b)
+            spec["policy"] = "sequential"
+            spec["reuse"] = True
         return spec
 
     def positions(self, n, tier):
@@ -71,7 +85,13 @@ class C08(Prop):
             out.count("reach:multi_conn")
         if any(c["proto"] == "quic" for c in spec["conns"]):
             out.count("reach:quic_world")
+        if spec.get("reuse"):
+            out.count("reach:four_tuple_reuse")
         prev = None
+        eps = {}
+        for c in spec["conns"]:
+            eps.setdefault((c["c"]["ip"], c["c"]["port"], c["s"]["ip"], c["s"]["port"]), []).append(c["id"])
+        shared_tuple = set(i for ids in eps.values() if len(ids) > 1 for i in ids)   # 4-tuple reuse: one output flow
         for k in self.positions(n, spec.get("tier", "quick")):
             if lane.expired():
                 out.count("enumeration_truncated_by_budget")
@@ -106,7 +126,7 @@ class C08(Prop):
                                         stream_mismatch_class(val[d], fval[d][:len(val[d])]) or "longer-than-full",
                                         "cut after %d of %d packets: conn %d dir %s exports %d bytes, full export %d bytes" % (
                                             k, n, cid, d, len(val[d]), len(fval[d])))
-                        elif not t["app"][d].startswith(val[d]):
+                        elif cid not in shared_tuple and not t["app"][d].startswith(val[d]):
                             out.violate("prefix-export-is-prefix-of-truth", "wrong-or-invented-data",
                                         "cut after %d of %d packets: conn %d dir %s" % (k, n, cid, d))
                         if prev is not None and cid in prev and not val[d].startswith(prev[cid][1][d]) and \
